@@ -115,6 +115,7 @@ func (e *encoder) enc(sb *strings.Builder, v reflect.Value) {
 			k  string
 			v  reflect.Value
 			vs string
+			id string
 		}
 		var items []kv
 		it := v.MapRange()
@@ -128,6 +129,13 @@ func (e *encoder) enc(sb *strings.Builder, v reflect.Value) {
 				var vb strings.Builder
 				e.enc(&vb, it.Value())
 				item.vs = vb.String()
+			} else if HoldsPointer(v.Type().Key()) {
+				// a snapshot is compared with a later snapshot of the same objects: keys that encode alike are
+				// ordered by their value's contents and then by the addresses they hold, which do not change
+				item.vs = Encode(it.Value(), EncOpt{Cap: e.o.Cap})
+				for _, r := range Addrs(it.Key()) {
+					item.id += strconv.FormatUint(uint64(r.Lo), 16) + ","
+				}
 			}
 			items = append(items, item)
 		}
@@ -135,7 +143,10 @@ func (e *encoder) enc(sb *strings.Builder, v reflect.Value) {
 			if items[i].k != items[j].k {
 				return items[i].k < items[j].k
 			}
-			return items[i].vs < items[j].vs
+			if items[i].vs != items[j].vs {
+				return items[i].vs < items[j].vs
+			}
+			return items[i].id < items[j].id
 		})
 		sb.WriteString("{")
 		for i, it := range items {
